@@ -571,6 +571,16 @@ func ruleLIT1(c *Ctx) {
 			}
 			return true
 		})
+		// an arm that just returns a private method's result is that method's body
+		if res != nil && len(res.Body) == 1 {
+			if r, ok := res.Body[0].(*ast.ReturnStmt); ok && len(r.Results) == 1 {
+				if call, ok := ast.Unparen(r.Results[0]).(*ast.CallExpr); ok {
+					if hd := gHelpers[call]; hd != nil && hd.Body != nil {
+						return &ast.CaseClause{Case: hd.Body.Pos(), Colon: hd.Body.Pos(), List: res.List, Body: hd.Body.List}
+					}
+				}
+			}
+		}
 		return res
 	}
 	checkConv := func(tok, fn string, args []string, needErr bool) {
